@@ -43,6 +43,36 @@ def random_histories(ctx, count, maxlen):
     return out
 
 
+def count_histories(quick):
+    """Threshold sweeps: every count n of distinct names / segments on one line / mapped lines up to
+    a bound, each name used again after all (and right after the next one) have been introduced, so
+    that a table that changes representation at some size (8, 16, 32, 64, 256 ...) is crossed with
+    every index on either side of it."""
+    out = []
+    ns = list(range(1, 41)) + ([63, 64, 65, 66] if quick else [63, 64, 65, 66, 127, 128, 129, 130, 255, 256, 257, 258, 300])
+    for n in ns:
+        intro = [op("nmap", i % 7, i, n="v%d" % i) for i in range(n)]
+        again = [op("nmap", 1, i, n="v%d" % i) for i in reversed(range(n))]
+        out.append(dict(id="names%d" % n, ops=intro + [op("col", k=1)] + again, every=False))
+        inter = []
+        for i in range(n):
+            inter.append(op("nmap", 0, i, n="w%d" % i))
+            inter.append(op("col", k=2))
+            if i > 0:
+                inter.append(op("nmap", 0, i - 1, n="w%d" % (i - 1)))
+                inter.append(op("col", k=2))
+        out.append(dict(id="namesi%d" % n, ops=inter + [op("nmap", 3, 3, n="w%d" % (n - 1))], every=n <= 20))
+        segs = []
+        for i in range(n):
+            segs += [op("map", i, 2 * i), op("col", k=1 + i % 3)]
+        out.append(dict(id="segs%d" % n, ops=segs + [op("line"), op("map", 0, 0)], every=False))
+        lines = []
+        for i in range(n):
+            lines += [op("map", n - i, i), op("str", b=[97, 10] if i % 2 else [13, 10, 98])]
+        out.append(dict(id="lines%d" % n, ops=lines + [op("nmap", 0, 0, n="z")], every=False))
+    return out
+
+
 def vlq_histories(lo, hi, chain):
     """The private VLQ encoder is reached through deltas of source columns: a chain of mappings
     whose consecutive source columns differ by the integers to be encoded."""
@@ -110,6 +140,7 @@ def run(ctx):
     cases += random_histories(ctx, 300 if quick else 3000, 40 if quick else 200)
     cases += vlq_histories(-(2 ** 12), 2 ** 12, 16) if quick else vlq_histories(-(2 ** 20), 2 ** 20, 32)
     cases += boundary_vlq()
+    cases += count_histories(quick)
     ctx.cov["samples"] = [dict(ops=c["ops"][:8]) for c in (cases[0], cases[len(exported)], cases[-1])]
     fails = validate(ctx, cases)
     nontrivial = set()
